@@ -192,6 +192,9 @@ func (i *interpreter) load(T types.Type, addr value) value {
 		if p == nil {
 			panic(targetRuntimeError("invalid memory address or nil pointer dereference"))
 		}
+		if i.race != nil && i.race.on {
+			i.raceLoad(T, p)
+		}
 		return load(T, p)
 	case *symptr:
 		return i.selectElem(p.elems, p.idx)
@@ -759,4 +762,28 @@ func hasSymElem(v []value) bool {
 		}
 	}
 	return false
+}
+
+// raceLoad records read accesses to the leaf cells of *addr.
+func (i *interpreter) raceLoad(T types.Type, addr *value) {
+	switch tt := T.Underlying().(type) {
+	case *types.Struct:
+		st, ok := (*addr).(structure)
+		if !ok {
+			return
+		}
+		for k := range st {
+			i.raceLoad(tt.Field(k).Type(), &st[k])
+		}
+	case *types.Array:
+		ar, ok := (*addr).(array)
+		if !ok {
+			return
+		}
+		for k := range ar {
+			i.raceLoad(tt.Elem(), &ar[k])
+		}
+	default:
+		i.raceAccess(addr, false, false)
+	}
 }
